@@ -244,6 +244,18 @@ def main(tier):
                 continue
             acc = tok is not None and full
             run.ob(not acc, "vocab-foreign|%s|%s" % (ev, s), "C03-d foreign names and characters are rejected", where(m, "::tokenizer::Tokenizer"), "%r accepted as %s" % (s, T.show(tok) if tok else None))
+        # superscript digits: each of the ten starts the same scanner; nothing else is a superscript digit
+        bodies = []
+        for c_ in spec.SUPERSCRIPTS:
+            k_, i_ = m.lex.arm_for(c_)
+            r_ = m.lex.run(c_ + ")")
+            run.ob(k_ == "arm" and r_.get("kind") == "scan", "vocab-missing|%s|%s" % (ev, c_), "C03-d every superscript digit starts a superscript exponent", where(m, "::tokenizer::Tokenizer"), "%r -> %s" % (c_, r_.get("kind")), distinct="superscript-start|%s" % ev)
+            if k_ == "arm":
+                bodies.append(T.show(m.lex.arms[i_][1]))
+        run.ob(len(set(bodies)) == 1 and len(bodies) == 10, "superscript-arms|%s" % ev, "C03-d the ten superscript digits are scanned by identical code", where(m, "::tokenizer::Tokenizer"), "%d distinct arm bodies over %d digits" % (len(set(bodies)), len(bodies)))
+        for c_ in "ⁱ⁺⁻ⁿ\u2072\u2073₀₁ª":
+            r_ = m.lex.run(c_ + ")")
+            run.ob(r_.get("kind") == "none", "vocab-foreign|%s|%s" % (ev, c_), "C03-d other superscript/subscript code points are rejected", where(m, "::tokenizer::Tokenizer"), "%r -> %s" % (c_, r_.get("kind")), distinct="superscript-foreign|%s" % ev)
         # the catch-all arms
         la = m.lex.arm_for("~")
         okcatch = la[0] == "arm" and M("(None)", m.lex.arms[la[1]][1]) is not None
@@ -260,6 +272,8 @@ def main(tier):
                 continue
             run.ob(tv not in pr and tv not in bn, "closer|%s|%s" % (ev, s), "C03-c closing brackets and commas are accepted only where a list/bracket expects them", where(m, "::parser::Parser::parse_number"), "Token::%s has a primary/operator arm" % tv)
         run.ob("Eof" not in pr and "Eof" not in bn, "closer|%s|Eof" % ev, "C03-c end of input is neither an operand nor an operator", where(m, "::parser::Parser::parse_number"), "Eof has an arm")
+    from .c13 import superscript_checks
+    superscript_checks(run, F, models, "C03-d")
     report_issues(run, models, tables={"T_prim", "T_loop", "T_lex"})
     run.floor("evaluators analysed", len(models), 5)
     run.floor("obligations", run.obligations, 500)
